@@ -3,7 +3,10 @@ Oracle ops for the `v1` family (slice C09): the models of v1's own pure code.
 
   v1 htmlescape <hex>      → hex of appendHTMLEscape(nil, src)
   v1 unescape <hex>        → hex of the inverse used by the meaning-preservation theorem
-  v1 valid <hex>           → 0|1  (v1.Valid)
+  v1 valid <hex>           → 0|1  (v1.Valid: Validate.isValid at the permissive flags)
+  v1 validpda <hex>        → 0|1  (the independent push-down recogniser)
+  v1 compact <hex>         → "ok <hex>" | "err"   (v1.Compact)
+  v1 indent <prefixhex> <indenthex> <hex> → "ok <hex>" | "err"   (v1.Indent, blank or non-blank prefix/indent)
   v1 trailingws <hex>      → hex of the trailing JSON whitespace of src (appendIndent's rule)
   v1 blank <hex>           → 0|1  (prefix/indent consist of spaces and tabs only)
 -/
@@ -24,6 +27,19 @@ def handle (op : String) (args : List String) : String :=
   | "valid", [h] => match bytesOfHex h with
     | some b => boolStr (valid b)
     | none => badArgs
+  | "validpda", [h] => match bytesOfHex h with
+    | some b => boolStr (validPda b)
+    | none => badArgs
+  | "compact", [h] => match bytesOfHex h with
+    | some b => (match compact b with
+      | some o => "ok " ++ hexOfBytes o
+      | none => "err")
+    | none => badArgs
+  | "indent", [p, i, h] => match bytesOfHex p, bytesOfHex i, bytesOfHex h with
+    | some pre, some ind, some b => (match indent pre ind b with
+      | some o => "ok " ++ hexOfBytes o
+      | none => "err")
+    | _, _, _ => badArgs
   | "trailingws", [h] => match bytesOfHex h with
     | some b => hexOfBytes (trailingWs b)
     | none => badArgs
